@@ -26,6 +26,8 @@ func main() {
 		"S: worlds of 2-5 NodePools (weights with ties, template labels/zones/capacity types/taints incl. PreferNoSchedule/limits/minValues; every readiness state: Ready=True / False / Unknown (NodeClassReady or ValidationSucceeded undecided) / no conditions, plus static and deleting pools; " +
 		"1-4 instance types per pool incl. reserved offerings with capacity 0/1), one pod (feasible skeleton, at most two perturbations; half with preferred / several required " +
 		"node-affinity terms) or a batch of 2-5 pods, Solve at 1, 4 and 16 workers, then TruncateInstanceTypes + ToNodeClaim. " +
+		"S also runs batches against weighted NodePools WITH cpu limits (small arm64 + large amd64 types, pods pinned to an architecture, most needing a NodeClaim of their own, limits at k*small / large / large+small-1 ...): " +
+		"the feasibility of each pool for a pod is judged under the limit that truly remains (spec.limits minus the largest type each EARLIER NodeClaim of the pass can still launch, recomputed from the Results). " +
 		"P, T and S additionally re-run on the SAME *InstanceType objects after a first use (Allocatable/AllocatableOfferingsList/fits precompute) and an in-place change of " +
 		"Offering.Available (cheapest compatible offering of about half of the types becomes unavailable, some unavailable offerings come back): ranking and truncation are judged by the CURRENT availability. " +
 		"non-trivial = the sort moved an element / the cut drops a type / the pod got a pool that is not first in the order or was deferred; distinct by full input"
